@@ -238,6 +238,15 @@ class AffineDomain(Domain):
             val = self.eval(flow, s, rhs)
             cur = s.d.get(("v", rid)) or Aff.atom(flow.canon(s, {"kind": "DeclRefExpr", "ref": {"id": rid, "name": name,
                                                                                                "kind": "VarDecl"}}))
+        if op == "=" and rhs is not None:
+            r0 = strip(rhs, casts=True)
+            if r0["kind"] == "BinaryOperator" and r0.get("opcode") in ("<", "<=", ">", ">=", "==", "!="):
+                if not hasattr(self, "_flag_nodes"):
+                    self._flag_nodes = {}
+                self._flag_nodes[id(r0)] = r0
+                s.d[("flag", rid)] = (r0["opcode"], self.eval(flow, s, kids(r0)[0]), self.eval(flow, s, kids(r0)[1]), id(r0))
+            else:
+                s.d.pop(("flag", rid), None)
         if op == "=":
             new = val
         elif op in ("+=", "++"):
@@ -305,9 +314,16 @@ class AffineDomain(Domain):
 
     def assume(self, flow, s, cond, truth):
         c = strip(cond, casts=True)
-        if c["kind"] == "BinaryOperator" and c.get("opcode") in ("<", "<=", ">", ">=", "==", "!="):
-            a, b = self.eval(flow, s, kids(c)[0]), self.eval(flow, s, kids(c)[1])
-            op = c["opcode"]
+        frozen = None
+        if c["kind"] == "DeclRefExpr" and ("flag", c.get("ref", {}).get("id")) in s.d:
+            # a boolean local that recorded a comparison: the fact is about the values at the time it was evaluated
+            frozen = s.d[("flag", c["ref"]["id"])]
+        if frozen is not None or (c["kind"] == "BinaryOperator" and c.get("opcode") in ("<", "<=", ">", ">=", "==", "!=")):
+            if frozen is not None:
+                op, a, b, c = frozen[0], frozen[1], frozen[2], self._flag_nodes[frozen[3]]
+            else:
+                a, b = self.eval(flow, s, kids(c)[0]), self.eval(flow, s, kids(c)[1])
+                op = c["opcode"]
             if not truth:
                 op = {"<": ">=", "<=": ">", ">": "<=", ">=": "<", "==": "!=", "!=": "=="}[op]
             s = s.copy()
@@ -415,6 +431,8 @@ class AffineDomain(Domain):
         for k in list(s.d):
             if k[0] in ("ge", "eq") and any(a.endswith("#" + tag) for a in k[1].atoms()):
                 del s.d[k]
+            elif k[0] == "flag":
+                del s.d[k]              # a recorded comparison does not survive the loop head
         if cand and all(v in vars_ for v in cand["vars"]):
             # the candidate relation speaks about the variables common to all arrivals (a local that is first assigned
             # inside the loop has no value on entry); the others are simply havocked
